@@ -376,14 +376,41 @@ impl TestFunction {
             }
         }
 
+        // RFC 9535 2.4.3: the declared parameter types of the standard functions
+        fn value_type<'a>(a: &'a FnArg, name: &str) -> Result<&'a FnArg, JsonPathError> {
+            if a.is_value_type() {
+                Ok(a)
+            } else {
+                Err(JsonPathError::InvalidJsonPath(format!(
+                    "Invalid argument for the function `{}`: expected a value (literal, singular query or function returning a value)",
+                    name
+                )))
+            }
+        }
+        fn nodes_type<'a>(a: &'a FnArg, name: &str) -> Result<&'a FnArg, JsonPathError> {
+            let a = with_node_type_validation(a, name)?;
+            if a.is_nodes_type() {
+                Ok(a)
+            } else {
+                Err(JsonPathError::InvalidJsonPath(format!(
+                    "Invalid argument for the function `{}`: expected a query",
+                    name
+                )))
+            }
+        }
+
         match (name, args.as_slice()) {
-            ("length", [a]) => Ok(TestFunction::Length(Box::new(a.clone()))),
-            ("value", [a]) => Ok(TestFunction::Value(a.clone())),
-            ("count", [a]) => Ok(TestFunction::Count(
-                with_node_type_validation(a, name)?.clone(),
+            ("length", [a]) => Ok(TestFunction::Length(Box::new(value_type(a, name)?.clone()))),
+            ("value", [a]) => Ok(TestFunction::Value(nodes_type(a, name)?.clone())),
+            ("count", [a]) => Ok(TestFunction::Count(nodes_type(a, name)?.clone())),
+            ("search", [a, b]) => Ok(TestFunction::Search(
+                value_type(a, name)?.clone(),
+                value_type(b, name)?.clone(),
             )),
-            ("search", [a, b]) => Ok(TestFunction::Search(a.clone(), b.clone())),
-            ("match", [a, b]) => Ok(TestFunction::Match(a.clone(), b.clone())),
+            ("match", [a, b]) => Ok(TestFunction::Match(
+                value_type(a, name)?.clone(),
+                value_type(b, name)?.clone(),
+            )),
             ("length" | "value" | "count" | "match" | "search", args) => {
                 Err(JsonPathError::InvalidJsonPath(format!(
                     "Invalid number of arguments for the function `{}`: got {}",
@@ -437,6 +464,34 @@ pub enum FnArg {
 }
 
 impl FnArg {
+    /// ValueType argument (RFC 9535 2.4.1): a literal, a singular query, or a function
+    /// expression whose result is a value.
+    pub fn is_value_type(&self) -> bool {
+        fn singular(segments: &[Segment]) -> bool {
+            segments.iter().all(|s| {
+                matches!(
+                    s,
+                    Segment::Selector(Selector::Name(_)) | Segment::Selector(Selector::Index(_))
+                )
+            })
+        }
+        match self {
+            FnArg::Literal(_) => true,
+            FnArg::Test(test) => match test.as_ref() {
+                Test::RelQuery(segments) => singular(segments),
+                Test::AbsQuery(query) => singular(&query.segments),
+                Test::Function(func) => func.is_comparable(),
+            },
+            FnArg::Filter(_) => false,
+        }
+    }
+    /// NodesType argument (RFC 9535 2.4.1): a query.
+    pub fn is_nodes_type(&self) -> bool {
+        match self {
+            FnArg::Test(test) => matches!(test.as_ref(), Test::RelQuery(_) | Test::AbsQuery(_)),
+            _ => false,
+        }
+    }
     pub fn is_lit(&self) -> bool {
         matches!(self, FnArg::Literal(_))
     }
